@@ -878,6 +878,10 @@ func (w *Walker) step(fr *frame, in ssa.Instruction) {
 			fr.env[x] = &Term{Op: "index", Args: []*Term{base, idx}, Typ: x.Type()}
 		}
 	case *ssa.Lookup:
+		if t, ok := w.tableLookup(w.val(fr, x.X), w.val(fr, x.Index), fr, x); ok {
+			fr.env[x] = t
+			return
+		}
 		fr.env[x] = w.lookup(w.val(fr, x.X), w.val(fr, x.Index), x)
 	case *ssa.MapUpdate:
 		m := w.val(fr, x.Map)
